@@ -8,6 +8,7 @@ import random
 import shutil
 
 from simkit.fsfaults import ERRNOS, FsSeam, SimCrash
+from simkit.seeds import derive
 
 from . import store_gen as G
 from .store_model import MSession
@@ -247,6 +248,9 @@ def op_merge_sweep(self: StoreSim, op):
             todo = [(k, fk) for k, fk in todo if [k, fk] == list(only)]
         for k, fk in todo:
             label = labels[k]
+            # one PRNG per fault point, so that replaying a single point ('only') makes the
+            # same choices as the full sweep did
+            crng = random.Random(derive(op.get('crash_seed', 0), k, fk))
             if fk == 'error':
                 en = 'EXDEV' if 'os.rename' in label else 'EEXIST' if 'os.mkdir' in label else \
                     crng.choice(['EIO', 'ENOSPC', 'EACCES'])
